@@ -262,6 +262,14 @@ func (m *Model) judgeFreezeWipe(c *Call, v *Verdict, args [][]byte, dstLocal boo
 	}
 	acc := m.acc(c.Shard, c.Rcv)
 	e := acc.entry(suffix)
+	if c.CallValue == 0 && !refIsSystemAccount(c.Rcv) && (c.Fn != refBuiltInFunctionESDTWipe || e.Frozen) {
+		props := pC04
+		if c.Fn == refBuiltInFunctionESDTWipe {
+			props = pC02
+		}
+		cl := clause(props, c.Fn+"/system-message-refused", "a freeze / unfreeze / wipe message from the ESDT system contract for an account on this shard was refused")
+		v.MustSucceed = &cl
+	}
 	switch c.Fn {
 	case refBuiltInFunctionESDTWipe:
 		if !e.Frozen {
@@ -297,6 +305,10 @@ func (m *Model) judgePause(c *Call, v *Verdict, args [][]byte) {
 		return
 	}
 	pause := c.Fn == refBuiltInFunctionESDTPause
+	if c.CallValue == 0 {
+		cl := clause(pC04, c.Fn+"/system-message-refused", "a pause / unpause message from the ESDT system contract, addressed to this shard's system account, was refused: the token's pause state on this shard never follows the system contract")
+		v.MustSucceed = &cl
+	}
 	v.Apply = func(res *Result) []Clause {
 		m.Shards[c.Shard].PauseFlag[string(token)] = pause
 		return nil
@@ -315,6 +327,12 @@ func (m *Model) judgeRoles(c *Call, v *Verdict, args [][]byte, dstLocal bool) {
 		return
 	}
 	acc := m.acc(c.Shard, c.Rcv)
+	if c.CallValue == 0 && !refIsSystemAccount(c.Rcv) {
+		// nothing in a system-contract role message can be wrong for the library: refusing it leaves the shard and
+		// the system contract's books apart for good
+		cl := clause(pC03, c.Fn+"/system-message-refused", "a role message from the ESDT system contract for an account on this shard was refused")
+		v.MustSucceed = &cl
+	}
 	set := c.Fn == refBuiltInFunctionSetESDTRole
 	v.Apply = func(res *Result) []Clause {
 		cur := append([]string{}, acc.Roles[string(token)]...)
@@ -383,6 +401,12 @@ func (m *Model) judgeHandOver(c *Call, v *Verdict, args [][]byte, sndLocal, dstL
 		counter := old.Counter[string(token)]
 		newLocal := m.local(newHolder, c.Shard)
 		v.Labels = append(v.Labels, "handover/at-current-holder")
+		if c.CallValue == 0 && old.hasRole(token, refESDTRoleNFTCreate) && !bytes.Equal(newHolder, c.Rcv) {
+			// the system contract's hand-over for the actual holder: nothing in it can be wrong for the library - also
+			// not a new owner that has no account record yet
+			cl := clause([]string{"C07", "C03"}, "ESDTNFTCreateRoleTransfer/system-message-refused", "the hand-over message of the ESDT system contract was refused at the current holder: the old holder keeps role and counter while the system contract's books say otherwise")
+			v.MustSucceed = &cl
+		}
 		v.Apply = func(res *Result) []Clause {
 			var out []Clause
 			setCounter(old, token, 0)
